@@ -22,7 +22,9 @@ RULE = ('one run = one simulated hand on decks of 52/36/20/3 cards, every varian
         'cards over deck+boards+hands+burns+muck+discards equals the configured deck, engine-chosen cards came from the '
         'deck (or, only when the deck could not cover the deal, from the replenished piles), piles shrink only on '
         'replenish or when an explicit dealable card is named, and fold/kill/muck/burn/discard moved exactly the '
-        'documented cards to the documented pile. non-trivial = >= 10 card-moving operations; distinct = distinct '
+        'documented cards to the documented pile. Fault duplicate_named (1 quiescent point in 12): the same card named twice - by '
+        'the dealer in one deal, by a player tabling his hand or discarding - must be refused (for deals and shows: under '
+        'warnings-as-errors, the mode in which the engine refuses cards it does not recommend). non-trivial = >= 10 card-moving operations; distinct = distinct '
         '(configuration class, dealer mode, operation-class sequence) digests')
 ASSUMPTIONS = [
     'explicit known cards named by the dealer are taken from get_dealable_cards(k), as the documentation asks - except '
@@ -180,6 +182,34 @@ class DuplicateNamer(Monitor):
                 target = ('can_deal_hole', 'deal_hole')
         elif st.can_deal_board() and (st.board_dealing_count or 0) >= 2:
             target = ('can_deal_board', 'deal_board')
+        elif st.can_show_or_muck_hole_cards():
+            # a player names one of his own known cards twice when he tables his hand: the hand would hold two copies of it
+            # (and the card it replaces would go back to the deck)
+            j = st.showdown_index
+            own = [c for c in st.hole_cards[j] if not c.unknown_status]
+            if len(own) >= 2 and len(own) == len(st.hole_cards[j]):
+                k = ch.pick('dup.own', len(own))
+                arg = ''.join(repr(own[k]) if i == (k + 1) % len(own) else repr(c) for i, c in enumerate(own))
+                world.ctx.fault('duplicate_named')
+                world.ctx.count('duplicate_named_in_a_show')
+                with warnings.catch_warnings():
+                    warnings.simplefilter('error')
+                    if st.can_show_or_muck_hole_cards(arg):
+                        raise Violation('C06.duplicate_named', f'show_or_muck_hole_cards({arg!r}) by player {j} holding {own} - one of '
+                                        f'his cards named twice - is accepted with warnings as errors: two copies of {own[k]!r} '
+                                        f'would be in play', rule='duplicate_named', op='show')
+            return
+        elif st.can_stand_pat_or_discard():
+            j = st.stander_pat_or_discarder_index
+            own = [c for c in st.hole_cards[j] if not c.unknown_status]
+            if own:
+                c = own[ch.pick('dup.discard', len(own))]
+                world.ctx.fault('duplicate_named')
+                world.ctx.count('duplicate_named_in_a_discard')
+                if st.can_stand_pat_or_discard(repr(c) + repr(c)):
+                    raise Violation('C06.duplicate_named', f'stand_pat_or_discard({repr(c) * 2!r}) by player {j} holding {own} is '
+                                    f'accepted: a card he holds once would be discarded twice', rule='duplicate_named', op='discard')
+            return
         if target is None:
             return
         pool = sorted(st.get_dealable_cards(2), key=repr)
